@@ -87,6 +87,7 @@ package chain
 //@   modifies $bal
 //@   ensures err == nil && amount > 0 ==> $bal[fromClient] == old($bal[fromClient]) - amount && $bal[toClient] == old($bal[toClient]) + amount
 //@   ensures err == nil ==> forall k string :: k != fromClient && k != toClient ==> $bal[k] == old($bal[k])
+//@   ensures[zero-is-noop] err == nil && amount == 0 ==> balUnchanged()
 //@   ensures forall k string :: $nonce[k] == old($nonce[k])
 
 // A transaction's nonce must be exactly one more than the sender's nonce in state.
@@ -161,6 +162,10 @@ package chain
 //@   at-call GetSignedTransfers assert[signed-transfers-verified-when-applied] forall i in 0..len(sctx.signedTransfers) :: signedOK(sctx.signedTransfers[i])
 //@   loop 1 header "for _, transfer := range sctx.GetTransfers()"
 //@   loop 1 invariant forall k string :: $nonce[k] == old($blockNonce[k]) && $blockNonce[k] == old($blockNonce[k]) && $blockBal[k] == old($blockBal[k])
+// (C04) applying the queued transfers lowers the sender's balance by at most the validated total
+//@   loop 1 invariant senderDebit(sctx, len(sctx.transfers)) <= txn.Value + txn.Fee
+//@   loop 1 invariant $bal[txn.ClientID] >= old($blockBal[txn.ClientID]) - senderDebit(sctx, $idx + 1)
+//@   at-call GetSignedTransfers assert[sender-loses-at-most-value-plus-fee] $bal[txn.ClientID] >= old($blockBal[txn.ClientID]) - (txn.Value + txn.Fee)
 //@   loop 3 header "for _, signedTransfer := range sctx.GetSignedTransfers()"
 //@   loop 3 invariant forall k string :: $nonce[k] == old($blockNonce[k]) && $blockNonce[k] == old($blockNonce[k]) && $blockBal[k] == old($blockBal[k])
 //@   loop 5 invariant forall k string :: $nonce[k] == (k == txn.ClientID ? old($blockNonce[k]) + 1 : old($blockNonce[k])) && $blockNonce[k] == old($blockNonce[k]) && $blockBal[k] == old($blockBal[k])
